@@ -77,8 +77,9 @@ func RuleNames(t *rapid.T, n int, prefix string) []string {
 				nm = base + sf
 			}
 		} else if prefix == "" && rapid.IntRange(0, 7).Draw(t, "rname_like_fact") == 0 {
-			// a rule named like a fact of the data context (rule names and fact names are separate name spaces)
-			nm = []string{"F", "J", "N", "TS", "G", "Q"}[rapid.IntRange(0, 5).Draw(t, "rname_fact")]
+			// a rule named like a fact of the data context (rule names and fact names are separate name spaces), or
+			// like the engine's own bookkeeping names
+			nm = []string{"F", "J", "N", "TS", "G", "Q", "Deleted_Items", "Deleted_", "DEFUNC"}[rapid.IntRange(0, 8).Draw(t, "rname_fact")]
 		} else {
 			a := ruleNameParts[rapid.IntRange(0, len(ruleNameParts)-1).Draw(t, "rname_a")]
 			b := rapid.IntRange(0, 99).Draw(t, "rname_b")
